@@ -269,6 +269,72 @@ def build():
                note="a field whose annotation mentions a node class is a child field when the annotation is one of the child shapes, a field that mentions none is a property when it "
                     "holds no mutable collection; any other field makes the whole class rejected with InvalidFieldAnnotations; otherwise children and properties are listed in "
                     "dataclass field order"))
+    # ---- check_annotations: the definition-time check (best effort: forward references may not resolve yet) ------------------------------
+    # get_type_hints either resolves every annotation of the class (hints_of: name / type pairs in __annotations__ order), or fails with NameError
+    # (unresolved forward reference) or TypeError; which of the three happens is a fact about CPython and the module's namespace (uninterpreted).
+    NT = rec_sort("NameAndType", [("name", STR), ("ty", TY)], tuple_like=True)
+    SNT = seq_of(NT)
+    hints_of = z3.Function("hints_of", NCLS.z3(), SNT.z3())
+    fail_name, fail_type = z3.Function("hints_fail_with_name_error", NCLS.z3(), z3.BoolSort()), z3.Function("hints_fail_with_type_error", NCLS.z3(), z3.BoolSort())
+    skipped = z3.Function("is_classvar_or_initvar", TY.z3(), z3.BoolSort())
+    cv, iv = z3.Function("is_classvar_ty", TY.z3(), z3.BoolSort()), z3.Function("is_initvar_ty", TY.z3(), z3.BoolSort())
+    ht = lambda x: NT.get(NT.wrap(x).term, "ty").term
+    hint_bad = lambda x: z3.And(z3.Not(cv(ht(x))), z3.Not(iv(ht(x))),
+                                z3.If(mentions.t(ht(x)), z3.Not(child_ty.t(ht(x), z3.BoolVal(True))), z3.Not(prop_ok.t(ht(x)))))
+    any_bad_hint = lib.fn("any_bad_hint", [SNT], BOOL)
+    any_bad_hint.rule("any_bad_hint-empty", 0, "empty")(lambda a, p: z3.BoolVal(False))
+    any_bad_hint.rule("any_bad_hint-snoc", 0, "snoc")(lambda a, p: z3.Or(any_bad_hint.t(p[0]), hint_bad(p[1])))
+    all_wf_h = lib.fn("all_wf_hints", [SNT], BOOL)
+    all_wf_h.rule("all_wf_hints-empty", 0, "empty")(lambda a, p: z3.BoolVal(True))
+    all_wf_h.rule("all_wf_hints-snoc", 0, "snoc")(lambda a, p: z3.And(all_wf_h.t(p[0]), wfd.t(ht(p[1]))))
+    all_wf_h.rule("all_wf_hints-prefix", 0, "concat", "lemma", raw=True)(lambda a, p: z3.Implies(all_wf_h.t(z3.Concat(p[0], p[1])), all_wf_h.t(p[0])))
+    sf.update({"any_bad_hint": any_bad_hint, "all_wf_hints": all_wf_h, "hints_of": lambda c: SNT.wrap(hints_of(c.term)),
+               "hints_fail_with_name_error": lambda c: VBool(fail_name(c.term)), "hints_fail_with_type_error": lambda c: VBool(fail_type(c.term))})
+    exc_msg = z3.Function("exception_message", z3.IntSort(), z3.StringSort())
+
+    def attr_c(m, obj, name):
+        if isinstance(obj, VSeq) and obj.sort == SNT and name == "items":
+            return VPy(("ft_items", obj))
+        if isinstance(obj, VExc) and name == "args":
+            return VPy(("exc_args", obj))
+        return None
+
+    def index_c(m, obj, idx):
+        if isinstance(obj, VPy) and isinstance(obj.obj, tuple) and obj.obj[0] == "exc_args":
+            return VStr(z3.String("caught_exception_message"))      # the message of the TypeError get_type_hints raised: any string
+        return None
+
+    def call_c(m, func, a, kw, node):
+        if isinstance(func, VPy) and isinstance(func.obj, tuple) and func.obj[0] == "contract" and func.obj[1].endswith(":is_dataclass_kw_only") and len(a) == 1 \
+                and isinstance(a[0], VU) and a[0].sort == NCLS:
+            return VBool(z3.BoolVal(False))       # the argument passed is the class being checked, never the KW_ONLY sentinel
+        return NotImplemented
+
+    world.attr_hooks.insert(0, attr_c)
+    world.index_hooks = getattr(world, "index_hooks", []) + [index_c]
+    world.call_hooks.insert(0, call_c)
+    for e_ in ("NameError",):
+        world.exc_parents[e_] = "Exception"
+    why_t = "statement about CPython's typing / dataclasses modules (ClassVar, InitVar, KW_ONLY sentinels); assumed"
+    A(Contract(f"{TM_}:is_classvar", params={"type_": "Ty"}, returns="bool", props=P, trusted=True, trusted_reason=why_t, ensures=["result == is_classvar_ty(type_)"]))
+    A(Contract(f"{TM_}:is_initvar", params={"type_": "Ty"}, returns="bool", props=P, trusted=True, trusted_reason=why_t, ensures=["result == is_initvar_ty(type_)"]))
+    A(Contract(f"{TM_}:is_dataclass_kw_only", params={"type_": "Ty"}, returns="bool", props=P, trusted=True, trusted_reason=why_t, ensures=[]))
+    sf.update({"is_classvar_ty": lambda t: VBool(cv(t.term)), "is_initvar_ty": lambda t: VBool(iv(t.term))})
+    A(Contract("typing:get_type_hints", params={"obj": "NodeClassObj"}, returns="Seq[NameAndType]", props=P, trusted=True,
+               trusted_reason="typing.get_type_hints: resolves every annotation of the class and its bases, or fails with NameError (unresolved forward reference) / TypeError; "
+                              "validated natively by rt.c11 over the compilation modes",
+               raises=[("NameError", "hints_fail_with_name_error(obj)"), ("TypeError", "hints_fail_with_type_error(obj)")],
+               ensures=["result == hints_of(obj)"]))
+    A(Contract(f"{TM_}:check_annotations", params={"type_": "NodeClassObj", "node_base_type": "CheckType"}, returns="bool", props=P,
+               requires=["all_wf_hints(hints_of(type_))", "not (hints_fail_with_name_error(type_) and hints_fail_with_type_error(type_))"],
+               locals={"incorrect_fields": "List[BadField]"},
+               raises=[("InvalidFieldAnnotations", "not hints_fail_with_name_error(type_) and not hints_fail_with_type_error(type_) and any_bad_hint(hints_of(type_))"),
+                       ("TypeError", "only: hints_fail_with_type_error(type_)")],
+               ensures=["result == (not hints_fail_with_name_error(type_))"],
+               loops={1: Loop(inv=["(len(incorrect_fields) > 0) == any_bad_hint(done1)", "all_wf_hints(seq1)"])},
+               note="when every annotation resolves: rejects with InvalidFieldAnnotations exactly when some annotation other than a ClassVar / InitVar mentions a node class without "
+                    "being a child shape, or mentions none but holds a mutable collection -- the same verdict process_node_fields reaches at first instantiation; False when a "
+                    "forward reference is unresolved (nothing checked yet); a TypeError from get_type_hints is either re-raised with a clearer message or leaves the class unchecked"))
     # ---- get_field_types: the resolved annotation of every dataclass field -----------------------------------------------------------
     # raw annotation of a field: none (a literal `None` annotation) | a string (postponed annotation) | a type
     RAW = usort("RawAnnotation")
@@ -312,6 +378,8 @@ def build():
         from pyvc.values import VBound
         if isinstance(func, VPy) and func.obj == ("builtin", "fields") and isinstance(a[0], VU) and a[0].sort == NCLS:
             return SF.wrap(dc_fields(a[0].term))
+        if isinstance(func, VPy) and func.obj == ("get_type_hints",) and isinstance(a[0], VU) and a[0].sort == NCLS and m.contract.qualname == "check_annotations":
+            return m.call_contract("typing:get_type_hints", a, kw)
         if isinstance(func, VPy) and func.obj == ("get_type_hints",) and isinstance(a[0], VU) and a[0].sort == NCLS:
             # typing.get_type_hints may raise NameError (unresolved forward reference) or TypeError
             if m.ctx.branch(z3.Bool(fresh_name("get_type_hints_raises"))):
